@@ -6,7 +6,52 @@ COMMON_TB = [
     "/verif/harness correspondence check (runs the real leader package and the model's executable definitions on the same inputs)",
 ]
 
+SCEN_TB = COMMON_TB + [
+    "modelled, not verified: the goroutine-level behaviour of leader/*.go as the labelled transition system NLE/Model/Own.lean (guards = what the code does "
+    "between blocking points); tied to the code by trace acceptance: every trace of the real package (run under testing/synctest against the reference store) "
+    "must be accepted by the model, and the property monitors (NLE/Model/Monitors.lean) are evaluated on the same traces",
+    "modelled, not verified: the reference store as the meaning of JetStream KV (compared with the store model on every trace; with the real adapter in C14); "
+    "testing/synctest virtual time; A-uuid (uuid.New() never repeats a value generated or written before); A-json (encoding/json is not re-implemented: "
+    "the two decoders' readings of a record are computed by the real package)",
+]
+
+def scen(*gens, q=120, t=1500):
+    return [("corpus", 0, 0)] + [("scen:" + g, q, t) for g in gens]
+
 PROPS = {
+    "C01": {
+        "theorems": ["NLE.Theorems.C01"],
+        "models": ["Own"],
+        "modes": scen("takeover", "takeoverstop", "tamper", "faults", "healthrace", "acklosttakeover", "stoppoints", "vacancy"),
+        "level": "proof",
+        "claim": "Theorems over every execution of the ownership model (any number of instances/groups, any interleaving of issue/application/answer of store operations, faults, lost acknowledgements, outside writers, expiry, stops): every successful create/update by an instance is a creation on a vacant key, a same-owner same-token refresh against exactly the replaced revision, or a takeover by a takeover-enabled instance of strictly higher priority; always on its own group's key. Proved by an inductive invariant (own-write pairs, revision uniqueness of the ghost history). The deletion clause is false of the code (known finding F10): proved counterexample execution + replay. Model tied to the code by trace acceptance and monitors on every run.",
+        "design_ref": "§6 C01",
+        "rule": "scenarios from the generators takeover / takeoverstop / tamper / faults / healthrace / acklosttakeover / stoppoints / vacancy plus the regression corpus; every trace is checked for acceptance by the model and by the C01 monitor; distinct non-trivial = (scenario, trigger) pairs in which a create / refresh / takeover / delete was actually applied",
+        "trusted_base": SCEN_TB,
+        "assumptions": ["A-uuid", "the reference store's semantics for Create/Update/Delete/expiry (C14)", "one goroutine runs until it blocks (segment granularity)"],
+    },
+    "C05": {
+        "theorems": ["NLE.Theorems.C05"],
+        "models": ["Own"],
+        "modes": scen("takeover", "acklosttakeover", "faults", "tamper", "vacancy"),
+        "level": "proof",
+        "claim": "Theorems over every execution of the ownership model: the token of every acquiring write (create, takeover) occurs in no earlier version of any record (freshness invariant over the ghost history, with A-uuid as a guard of the model); every refresh republishes the token and identity of the version it replaces; a claiming instance's token is the token of a record it wrote itself at the revision its heartbeat presents.",
+        "design_ref": "§6 C05",
+        "rule": "scenarios with many terms per instance (re-election after demotion, preemption, lost acknowledgements, outside writers); distinct non-trivial = (scenario, trigger) pairs with a term start or an acquiring write",
+        "trusted_base": SCEN_TB,
+        "assumptions": ["A-uuid (built into the model as a guard)"],
+    },
+    "C10": {
+        "theorems": ["NLE.Theorems.C10"],
+        "models": ["Own"],
+        "modes": scen("takeover", "takeoverstop", "tamper"),
+        "level": "proof",
+        "claim": "Safety clause proved for every execution of the ownership model and every assignment of priorities and flags: a record written by somebody else is replaced only by an instance with takeover enabled and a priority strictly greater than the stored one; with takeover disabled never. The promptness clause (3 heartbeat intervals) is validated by scenario sweeps, not proved (partial).",
+        "design_ref": "§6 C10",
+        "rule": "2-5 instances with priorities 0..3 and mixed takeover flags, random start orders, slow readers; distinct non-trivial = (scenario, trigger) pairs with an applied takeover",
+        "trusted_base": SCEN_TB,
+        "assumptions": ["promptness clause not proved (partial)"],
+    },
     "C17": {
         "theorems": ["NLE.Theorems.C17", "NLE.Theorems.C17Round"],
         "modes": [("bo", 3000, 40000), ("retry", 1500, 20000), ("brk", 1500, 20000)],
